@@ -6,6 +6,7 @@ mod c06;
 mod conn;
 mod parse;
 mod util;
+mod wsroute;
 
 fn dispatch(rt: &tokio::runtime::Runtime, name: &str, args: &[&str]) -> String {
     if let Some(r) = parse::dispatch(rt, name, args) {
@@ -15,6 +16,9 @@ fn dispatch(rt: &tokio::runtime::Runtime, name: &str, args: &[&str]) -> String {
         return r;
     }
     if let Some(r) = c06::dispatch(rt, name, args) {
+        return r;
+    }
+    if let Some(r) = wsroute::dispatch(rt, name, args) {
         return r;
     }
     format!("NOHANDLER:{}", name)
